@@ -15,10 +15,10 @@
      on bit patterns below.
    * int32 fields of UserControl are carried as their uint32 pattern.
    * [unmarshal r data] = r.UnmarshalBinary(data) for a receiver [r]; receivers are the values the
-     New...() constructors build ([new_of_kind]); of the receiver only the fields the code leaves
-     untouched matter (Args of a call, ExtraData of a user control, every field on error).  The
-     command object a receiver already holds does not matter: Object.UnmarshalBinary replaces
-     the receiver's properties (amf0 fix 8324535; Proofs/Amf0Recv.v unmarshal_overwrites).
+     New...() constructors build ([new_of_kind]) or any packet of that type: every field is
+     assigned on every successful path (rtmp.go e5abd50 clears Args / ExtraData; amf0 8324535:
+     Object.UnmarshalBinary replaces the receiver's properties), so only the receiver's type
+     matters (Proofs/RtmpPacketWf.v unmarshal_overwrites).
    * every slice expression [p[n:]] is [drop n p site]: Panic when n > len(p).
    Error codes (the harness derives the same code from the error text):
      1 "Empty packet"  2 "Unknown message"  3 parse: "unmarshal command name"  4 parse: "unmarshal tid"
@@ -231,12 +231,12 @@ Definition um_hdr (p : bytes) : res (bytes * N * bytes) :=
   let* p2 := drop n2 p1 30 in
   Ok (amf_str v, amf_num t, p2).
 
-(* objectCallPacket.UnmarshalBinary; [a0] = the receiver's Args *)
-Definition um_objcall (a0 : option props) (data : bytes) : res (bytes * N * props * option props) :=
+(* objectCallPacket.UnmarshalBinary (after e5abd50: Args is nil unless decoded) *)
+Definition um_objcall (data : bytes) : res (bytes * N * props * option props) :=
   let* (name, tid, p2) := um_hdr data in
   let* (o, n) := step (um_object (dec_fuel p2) p2) 13 in
   let* p3 := drop n p2 31 in
-  if is_nil p3 then Ok (name, tid, amf_props o, a0)
+  if is_nil p3 then Ok (name, tid, amf_props o, None)
   else
     let* (a, _) := step (um_object (dec_fuel p3) p3) 14 in
     Ok (name, tid, amf_props o, Some (amf_props a)).
@@ -264,18 +264,18 @@ Definition um_control4 (data : bytes) : res N :=
 
 Definition unmarshal (r : pkt) (data : bytes) : res pkt :=
   match r with
-  | PConnect _ _ _ a0 =>
-      let* (name, tid, o, a) := um_objcall a0 data in
+  | PConnect _ _ _ _ =>
+      let* (name, tid, o, a) := um_objcall data in
       if negb (bytes_eqb name cConnect) then Err 22
       else if negb (f_eq tid f_one) then Err 23
       else Ok (PConnect name tid o a)
-  | PConnectRes _ _ _ a0 =>
-      let* (name, tid, o, a) := um_objcall a0 data in
+  | PConnectRes _ _ _ _ =>
+      let* (name, tid, o, a) := um_objcall data in
       if negb (bytes_eqb name cResult) then Err 22
       else Ok (PConnectRes name tid o a)
-  | PCall _ _ _ a0 =>
+  | PCall _ _ _ _ =>
       let* (name, tid, o, p) := after_variant data in
-      if is_nil p then Ok (PCall name tid o a0)
+      if is_nil p then Ok (PCall name tid o None)                (* v.Args = nil (e5abd50) *)
       else
         let* (a, _) := step (decode p) 17 in
         Ok (PCall name tid o (Some a))
@@ -304,7 +304,7 @@ Definition unmarshal (r : pkt) (data : bytes) : res pkt :=
       | a :: b :: c :: d :: e :: _ => Ok (PSetPeerBw (ube4 a b c d) e)
       | _ => Err 24
       end
-  | PUserControl _ _ x0 =>
+  | PUserControl _ _ _ =>
       match data with
       | a :: b :: body =>
           if is_nil body then Err 24                       (* len(data) < 3 *)
@@ -321,7 +321,7 @@ Definition unmarshal (r : pkt) (data : bytes) : res pkt :=
                 if et =? etSetBufferLength then
                   match body with _ :: _ :: _ :: _ :: c :: d :: e :: f :: _ => Ok (ube4 c d e f)
                   | _ => Panic 37 end
-                else Ok x0 in
+                else Ok 0 in                                  (* ExtraData = 0 (e5abd50) *)
               Ok (PUserControl et d x)
       | _ => Err 24
       end
@@ -640,6 +640,32 @@ Fixpoint hist_run (st : tx * tx) (es : list sx) (racc : list sx) : option (list 
 Definition want_of (k : Z) : pkt -> bool :=
   fun p => if Z.eqb k 11 then true else N.eqb (kind_of p) (Z.to_N k).     (* 11 = the Packet interface *)
 
+(* UnmarshalBinary into a receiver that already holds a value: [unmarshal] takes the receiver
+   [old]; per packet type, what each assignment does given the old value (after e5abd50, amf0
+   8324535 and 9789218 every field is assigned on every successful path):
+     ConnectApp / ConnectAppRes  CommandName, TransactionID overwritten; CommandObject's
+                  properties replaced; Args = nil, then a new decoded object if bytes remain
+     Call         CommandName, TransactionID overwritten; CommandObject = nil, then the decoded
+                  value if bytes remain; Args = nil, then the decoded value if bytes remain
+     CreateStream, CreateStreamRes, Publish, Play   every field overwritten
+     SetChunkSize, WindowAcknowledgementSize, SetPeerBandwidth   every field overwritten
+     UserControl  EventType, EventData overwritten; ExtraData = the decoded value for
+                  SetBufferLength, else 0
+   so only the receiver's TYPE matters (Proofs: unmarshal_overwrites).  On an error the receiver
+   is left half assigned; the model then has no packet (callers drop it). *)
+Definition unmarshal_into (old : pkt) (data : bytes) : res pkt := unmarshal old data.
+
+(* k payloads in sequence into ONE packet object; stops at the first failure *)
+Fixpoint unmarshal_seq (r : pkt) (ds : list sx) (racc : list sx) : list sx :=
+  match ds with
+  | SB d :: rest =>
+      match unmarshal_into r d with
+      | Ok p => unmarshal_seq p rest (obs_pkt (Ok p) :: racc)
+      | other => rev (obs_pkt other :: racc)
+      end
+  | _ => rev racc
+  end.
+
 (* C03 cases
    (0 pkt)            marshal, Size, Type, BetterCid, unmarshal on the constructor's receiver
                       -> (0 xbytes size type cid <packet obs>)
@@ -647,7 +673,10 @@ Definition want_of (k : Z) : pkt -> bool :=
    (2 (event...))     history -> (0 (obs...))
    (3 want (pkt...) (msg...))  the endpoint has written the pkts, then ExpectPacket(want) over msgs
                       -> (0 index <pkt> table) | (1 code table) | (2)
-   (4 (type...) (msg...))      ExpectMessage(types...) -> (0 index type xpayload) | (1 8) *)
+   (4 (type...) (msg...))      ExpectMessage(types...) -> (0 index type xpayload) | (1 8)
+   (6 kind tid init (xdata...)) one receiver -- New<kind>(tid) for init = (), the constructed packet
+                      for init = (pkt) -- decodes the payloads one after the other
+                      -> (0 (<packet obs>...)), ending with the first failure *)
 Definition run_c03 (c : sx) : sx :=
   match c with
   | SL [SZ 0%Z; p] =>
@@ -677,6 +706,19 @@ Definition run_c03 (c : sx) : sx :=
           | (Panic _, _) => s_panic
           end
       | _, _ => bad_case
+      end
+  | SL [SZ 6%Z; SZ k; SZ tid; SL ini; SL ds] =>
+      let r0 := match ini with
+                | [] => new_of_kind (Z.to_N k) (Z.to_N tid)
+                | [p] => match pkt_of_sx p with
+                         | Some q => if kind_of q =? Z.to_N k then Some q else None
+                         | None => None
+                         end
+                | _ => None
+                end in
+      match r0 with
+      | Some r => s_ok [SL (unmarshal_seq r ds [])]
+      | None => bad_case
       end
   | SL [SZ 4%Z; SL tys; SL ms] =>
       match msgs_of_sx ms with
